@@ -11,35 +11,48 @@ Open Scope N_scope.
    bridge is marked approximate; the only exact results are sin 0, ln 1 and
    exp 0 (with the right values) *)
 
+Lemma br_not_exact : forall (r : res Q) w,
+  (do v <- r; Ok (mkEx v false)) = Ok w -> exb w = false.
+Proof. intros r w H. destruct r; simpl in H; try discriminate. injection H as <-. reflexivity. Qed.
+
 Lemma rat_fn_exact_cases : forall Fo f q v,
   rat_fn Fo f q = Ok v -> exb v = true ->
   (f = Fsin /\ (q == 0)%Q /\ exv v = 0%Q) \/
   (f = Fln /\ (q == 1)%Q /\ exv v = 0%Q) \/
   (f = Fexp /\ (q == 0)%Q /\ exv v = 1%Q).
 Proof.
-  intros Fo f q v H He. destruct f; unfold rat_fn in H.
+  intros Fo f q v H He.
+  assert (Hbr : forall r : res Q, (do x <- r; Ok (mkEx x false)) = Ok v -> False).
+  { intros r Hr. apply br_not_exact in Hr. congruence. }
+  destruct f; unfold rat_fn in H.
   - destruct (qeq q 0) eqn:Hq.
     + injection H as <-. left. repeat split. now apply Qeq_bool_eq.
-    + injection H as <-. discriminate.
-  - injection H as <-. discriminate.
-  - destruct (qlt 1 q || qlt q (-1 # 1)); [discriminate|]. injection H as <-. discriminate.
-  - destruct (qlt 1 q || qlt q (-1 # 1)); [discriminate|]. injection H as <-. discriminate.
-  - injection H as <-. discriminate.
-  - injection H as <-. discriminate.
-  - injection H as <-. discriminate.
-  - injection H as <-. discriminate.
-  - injection H as <-. discriminate.
-  - destruct (qlt q 1); [discriminate|]. injection H as <-. discriminate.
-  - destruct (qle 1 q || qle q (-1 # 1)); [discriminate|]. injection H as <-. discriminate.
-  - destruct (rat_log2 Fo q); simpl in H; try discriminate. injection H as <-. discriminate.
+    + exfalso. eapply Hbr. exact H.
+  - exfalso. eapply Hbr. exact H.
+  - destruct (qlt 1 q || qlt q (-1 # 1)); [discriminate|]. exfalso. eapply Hbr. exact H.
+  - destruct (qlt 1 q || qlt q (-1 # 1)); [discriminate|]. exfalso. eapply Hbr. exact H.
+  - exfalso. eapply Hbr. exact H.
+  - exfalso. eapply Hbr. exact H.
+  - exfalso. eapply Hbr. exact H.
+  - exfalso. eapply Hbr. exact H.
+  - exfalso. eapply Hbr. exact H.
+  - destruct (qlt q 1); [discriminate|]. exfalso. eapply Hbr. exact H.
+  - destruct (qle 1 q || qle q (-1 # 1)); [discriminate|]. exfalso. eapply Hbr. exact H.
+  - exfalso. eapply Hbr. exact H.
   - destruct (qeq q 1) eqn:Hq.
     + injection H as <-. right. left. repeat split. now apply Qeq_bool_eq.
-    + destruct (rat_log2 Fo q); simpl in H; try discriminate. injection H as <-. discriminate.
-  - destruct (rat_log2 Fo q); simpl in H; try discriminate. injection H as <-. discriminate.
+    + set (c := from_f64 (fl_of_bits log2_e_bits)) in H.
+      destruct (rat_log2 Fo q); cbn [bind] in H; try discriminate.
+      destruct c; cbn [bind] in H; try discriminate.
+      injection H as <-. discriminate.
+  - set (c := from_f64 (fl_of_bits log2_10_bits)) in H.
+    destruct (rat_log2 Fo q); cbn [bind] in H; try discriminate.
+    destruct c; cbn [bind] in H; try discriminate.
+    injection H as <-. discriminate.
   - destruct (Qnum q =? 0)%Z eqn:Hq.
     + injection H as <-. right. right. repeat split.
       apply Z.eqb_eq in Hq. unfold Qeq. simpl. lia.
-    + injection H as <-. discriminate.
+    + exfalso. eapply Hbr. exact H.
 Qed.
 
 (* flags of the Real functions other than sin/cos/ln/exp: always approximate *)
@@ -79,7 +92,15 @@ Proof. intro a. unfold real_pow. reflexivity. Qed.
 
 Lemma real_one_pow : forall b, is_simple_one b = false ->
   real_pow (RSimple 1) b = Ok (mkEx (RSimple 1%Q) true).
-Proof. intros b Hb. unfold real_pow. rewrite Hb. reflexivity. Qed.
+Proof.
+  intros b Hb. unfold real_pow, real_pow_old. rewrite Hb.
+  destruct (is_simple_zero b); reflexivity.
+Qed.
+
+(* x^0 = 1, exact, for every non-zero x of either pattern (fix commit d3c0150) *)
+Lemma real_pow_zero : forall x, real_is_zero x = false ->
+  real_pow x (RSimple 0) = Ok (mkEx (RSimple 1%Q) true).
+Proof. intros x Hx. unfold real_pow. rewrite Hx. reflexivity. Qed.
 
 Lemma Qred_zero_num : forall q, (Qnum q = 0)%Z -> Qred q = (0 # 1)%Q.
 Proof.
@@ -91,6 +112,7 @@ Proof.
   intros q Hq Hc. pose proof (Qred_correct q) as H. unfold Qeq in H. rewrite Hc in H. lia.
 Qed.
 
+(* the code before that commit: exact for a rational base (BigRat::pow) ... *)
 Lemma rat_pow_zero : forall x, (Qnum x <> 0)%Z ->
   rat_pow x 0 = Ok (mkEx (1 # 1)%Q true).
 Proof.
@@ -111,19 +133,19 @@ Proof.
   rewrite Bool.andb_false_r. reflexivity.
 Qed.
 
-Lemma real_pow_zero : forall x, (Qnum x <> 0)%Z ->
-  exists v, real_pow (RSimple x) (RSimple 0) = Ok (mkEx (RSimple v) true) /\ (v == 1)%Q.
+Lemma real_pow_old_zero : forall x, (Qnum x <> 0)%Z ->
+  exists v, real_pow_old (RSimple x) (RSimple 0) = Ok (mkEx (RSimple v) true) /\ (v == 1)%Q.
 Proof.
-  intros x Hx. unfold real_pow.
+  intros x Hx. unfold real_pow_old.
   replace (is_simple_one (RSimple 0)) with false by reflexivity.
   destruct (is_simple_one (RSimple x)).
   - exists 1%Q. split; reflexivity.
   - rewrite (rat_pow_zero x Hx). simpl. exists (1 # 1)%Q. split; reflexivity.
 Qed.
 
-(* refuted for a Pi-pattern base: pi^0 is 1 but marked approximate *)
-Lemma real_pow_zero_pi_marked :
-  real_pow (RPi 1) (RSimple 0) = Ok (mkEx (RSimple (1 # 1)%Q) false).
+(* ... but marked approximate for a Pi-pattern base: the repaired defect *)
+Lemma real_pow_old_zero_pi_marked :
+  real_pow_old (RPi 1) (RSimple 0) = Ok (mkEx (RSimple (1 # 1)%Q) false).
 Proof. vm_compute. reflexivity. Qed.
 
 (* ------------------------------------------------------------------ *)
@@ -139,11 +161,14 @@ Definition q_big_near_one : Q := Qmake (10 ^ 400 + 1) (10 ^ 400).
 Lemma into_f64_big_near_one_is_nan : into_f64 q_big_near_one = FNaN.
 Proof. vm_compute. reflexivity. Qed.
 
-Lemma from_f64_nan_is_zero : from_f64 FNaN = (0 # 18446744073709551615)%Q.
+Lemma from_f64_old_nan_is_zero : from_f64_old FNaN = (0 # 18446744073709551615)%Q.
 Proof. vm_compute. reflexivity. Qed.
 
-(* a multiple of pi beyond the cut-off is not looked up *)
-Lemma sin_table_2_70_none : sin_pi_table (2 ^ 70 # 1)%Q = None.
+(* a multiple of pi beyond 2^64/6: not looked up by the old code, looked up now *)
+Lemma sin_table_old_2_70_none : sin_pi_table_old (2 ^ 70 # 1)%Q = None.
+Proof. vm_compute. reflexivity. Qed.
+
+Lemma sin_table_2_70 : sin_pi_table (2 ^ 70 # 1)%Q = Some 0%Q.
 Proof. vm_compute. reflexivity. Qed.
 
 Lemma known_big_pi_examples :
